@@ -5,7 +5,6 @@
 From Coq Require Import ZArith List Bool Sorting.Sorted.
 From GV Require Import Base.CSem Spec.Kmers Spec.C01 Model.C01 Proofs.C01Defs Proofs.C01Strand
   Proofs.C01Acc Proofs.C01.
-From GV Require Import Gen.PyC01 Proofs.PyTieC01.
 Import ListNotations.
 Open Scope Z_scope.
 
@@ -60,9 +59,3 @@ Theorem C01_dtype : forall k w, (1 <= k <= 32)%nat -> dtype_spec k = Some w ->
   (forall w', In w' [1; 2; 4; 8] -> 4 ^ Z.of_nat k <= 256 ^ w' -> w <= w').
 Proof. exact dtype_smallest. Qed.
 Print Assumptions C01_dtype.
-
-(** syntactic tie: gambit.kmers.index_dtype / nkmers as translated from the Python text by tools/py2v.py
-    are the model's [index_dtype] and the index range 4^k *)
-Theorem C01_tie_index_dtype : forall k, py_index_dtype k = Ok (Model.C01.index_dtype k) /\ py_nkmers k = Ok (4 ^ k).
-Proof. intros k. split; [apply tie_index_dtype | apply tie_nkmers]. Qed.
-Print Assumptions C01_tie_index_dtype.
